@@ -1,7 +1,174 @@
-//! C13: not implemented yet.
-use crate::util::Args;
+//! C13: termination, idempotence and cache transparency of the simplifier.
+//! One case = a batch of expressions sharing sub-terms, fed in a random order to ONE Simplifier
+//! instance (sparse cache) and to one with a dense cache; each result is compared with a fresh
+//! simplifier's result (reference equality) and re-simplified.  A watchdog detects hangs.
+//! (case ID (exprs E..) (order i..) (shared R..) (dense same|R..) (fresh same|R..) (again same|R..) (timeout no|yes))
+use crate::c01::{gen_directed, gen_random};
+use crate::dump::*;
+use crate::exprgen::*;
+use crate::rng::Rng;
+use crate::sexp::{build_expr, read_cases};
+use crate::util::*;
+use patronus::expr::*;
+use std::io::Write;
+use std::sync::atomic::{AtomicU64, Ordering};
+use std::sync::{Arc, Mutex};
 
-pub fn run(_args: &Args) {
-    eprintln!("C13: harness module not implemented yet");
-    std::process::exit(2);
+pub fn run(args: &Args) {
+    let args = args.clone();
+    let progress = Arc::new(AtomicU64::new(0));
+    let current = Arc::new(Mutex::new(String::new()));
+    let done = Arc::new(AtomicU64::new(0));
+    let (p2, c2, d2, a2) = (progress.clone(), current.clone(), done.clone(), args.clone());
+    let worker = std::thread::spawn(move || {
+        silence_panics();
+        worker_run(&a2, p2, c2);
+        d2.store(1, Ordering::SeqCst);
+    });
+    // watchdog: no progress for `watchdog_s` seconds => report a hang for the current case
+    let limit_ms = args.get_u64("watchdog_s", 20) * 1000;
+    let mut last = 0u64;
+    let mut idle = 0u64;
+    loop {
+        std::thread::sleep(std::time::Duration::from_millis(50));
+        if done.load(Ordering::SeqCst) == 1 {
+            break;
+        }
+        let p = progress.load(Ordering::SeqCst);
+        if p != last {
+            last = p;
+            idle = 0;
+        } else {
+            idle += 50;
+            if idle >= limit_ms {
+                let cur = current.lock().unwrap().clone();
+                let mut f = std::fs::OpenOptions::new().append(true).open(&args.out).expect("out");
+                writeln!(f, "{cur} (timeout yes))").unwrap();
+                let mut stats = Stats::default();
+                stats.inc("timeouts");
+                stats.notes.push("watchdog fired: the remaining cases of this stream were not run".to_string());
+                stats.write(&args.out);
+                std::process::exit(0);
+            }
+        }
+    }
+    worker.join().ok();
+}
+
+fn worker_run(args: &Args, progress: Arc<AtomicU64>, current: Arc<Mutex<String>>) {
+    let mut rng = Rng::new(args.seed);
+    let mut out = std::fs::File::create(&args.out).expect("out file");
+    let mut stats = Stats::default();
+    let mut distinct = std::collections::HashSet::new();
+    let mut run_one = |id: String, mut ctx: Context, exprs: Vec<ExprRef>, order: Vec<usize>, stats: &mut Stats, out: &mut std::fs::File| {
+        let exprs_txt: Vec<String> = exprs.iter().map(|e| dump_expr(&ctx, *e)).collect();
+        let head = format!(
+            "(case {id} (exprs {}) (order {})",
+            exprs_txt.join(" "),
+            order.iter().map(|i| i.to_string()).collect::<Vec<_>>().join(" ")
+        );
+        *current.lock().unwrap() = head.clone();
+        progress.fetch_add(1, Ordering::SeqCst);
+        // shared simplifier instances
+        let shared: Result<Vec<ExprRef>, String> = guarded(|| {
+            let mut s = Simplifier::new(SparseExprMap::default());
+            let mut res = vec![exprs[0]; exprs.len()];
+            for &i in order.iter() {
+                res[i] = s.simplify(&mut ctx, exprs[i]);
+            }
+            res
+        });
+        let dense: Result<Vec<ExprRef>, String> = guarded(|| {
+            let mut s = Simplifier::new(DenseExprMetaData::default());
+            let mut res = vec![exprs[0]; exprs.len()];
+            for &i in order.iter().rev() {
+                res[i] = s.simplify(&mut ctx, exprs[i]);
+            }
+            res
+        });
+        let fresh: Result<Vec<ExprRef>, String> = guarded(|| exprs.iter().map(|e| simplify_single_expression(&mut ctx, *e)).collect());
+        let line = match (&shared, &dense, &fresh) {
+            (Ok(s), Ok(d), Ok(f)) => {
+                let again: Result<Vec<ExprRef>, String> = guarded(|| s.iter().map(|e| simplify_single_expression(&mut ctx, *e)).collect());
+                let cmp = |name: &str, other: &Vec<ExprRef>, ctx: &Context| -> String {
+                    if other == s { format!("({name} same)") } else { format!("({name} {})", other.iter().map(|e| dump_expr(ctx, *e)).collect::<Vec<_>>().join(" ")) }
+                };
+                let again_txt = match &again {
+                    Ok(a) => cmp("again", a, &ctx),
+                    Err(_) => "(again (panic))".to_string(),
+                };
+                format!(
+                    "{head} (shared {}) {} {} {} (timeout no))",
+                    s.iter().map(|e| dump_expr(&ctx, *e)).collect::<Vec<_>>().join(" "),
+                    cmp("dense", d, &ctx),
+                    cmp("fresh", f, &ctx),
+                    again_txt
+                )
+            }
+            _ => {
+                stats.inc("impl_panics");
+                format!("{head} (shared (panic)) (panicloc {}) (timeout no))", quote(&last_panic_loc()))
+            }
+        };
+        stats.sample(&line, 2);
+        writeln!(out, "{line}").unwrap();
+    };
+    if let Some(path) = args.get("cases-in") {
+        for c in read_cases(path).iter() {
+            let mut ctx = Context::default();
+            let exprs: Vec<ExprRef> = c.field("exprs").unwrap().iter().map(|e| build_expr(&mut ctx, e)).collect();
+            let order: Vec<usize> = c.field("order").unwrap().iter().map(|i| i.num() as usize).collect();
+            run_one(c.list()[1].atom().to_string(), ctx, exprs, order, &mut stats, &mut out);
+        }
+    }
+    for id in 0..args.count {
+        let mut r = rng.fork();
+        let mut ctx = Context::default();
+        let mut cfg = GenCfg::default();
+        cfg.max_depth = 1 + r.below(3) as u32;
+        cfg.div_rem = r.chance(1, 8);
+        cfg.mul_max_width = 128;
+        cfg.syms_per_type = 2;
+        // a narrow width pool makes sub-terms collide across the batch
+        let pool: Vec<WidthInt> = (0..3).map(|_| *r.pick(WIDTH_POOL)).collect();
+        cfg.widths = pool;
+        let k = 2 + r.below(6) as usize;
+        let mut exprs: Vec<ExprRef> = vec![];
+        {
+            let mut g = ExprGen::new(&mut ctx, &mut r, cfg.clone());
+            for _ in 0..k {
+                let e = if g.rng.chance(1, 2) { gen_directed(&mut g) } else { gen_random(&mut g) };
+                exprs.push(e);
+            }
+            // explicit sharing: combine earlier members into later ones
+            for j in 1..k {
+                if g.rng.chance(1, 2) {
+                    let i = g.rng.below(j as u64) as usize;
+                    if let (Some(wi), Some(wj)) = (exprs[i].get_bv_type(g.ctx), exprs[j].get_bv_type(g.ctx)) {
+                        if wi == wj {
+                            exprs[j] = match g.rng.below(3) {
+                                0 => g.ctx.and(exprs[i], exprs[j]),
+                                1 => g.ctx.xor(exprs[j], exprs[i]),
+                                _ => g.ctx.add(exprs[i], exprs[j]),
+                            };
+                        }
+                    }
+                }
+            }
+        }
+        if exprs.iter().any(|e| tree_size(&ctx, *e, 2000) >= 2000) {
+            stats.inc("skipped_huge");
+            continue;
+        }
+        let mut order: Vec<usize> = (0..k).collect();
+        for i in (1..k).rev() {
+            let j = r.below(i as u64 + 1) as usize;
+            order.swap(i, j);
+        }
+        stats.bump("batch_size", &format!("{k}"));
+        distinct.insert(exprs.iter().map(|e| dump_expr(&ctx, *e)).collect::<Vec<_>>().join(" "));
+        run_one(format!("{id}"), ctx, exprs, order, &mut stats, &mut out);
+    }
+    stats.add("distinct_cases", distinct.len() as u64);
+    stats.write(&args.out);
 }
